@@ -33,6 +33,7 @@ ASSUMPTIONS = [
 def plan(tier, seed):
     n = 16
     units = [{"kind": "decls", "shard": i, "of": n, "pairwise": tier == "thorough"} for i in range(n)]
+    units.append({"kind": "suite"})
     if ONLINE:
         # mixed-profile histories (every op kind) and 'sat' histories (XML mutators next to schema-permitted siblings python-pptx
         # never writes: ops.op_saturate / ops.sat_select), both judged by monitor M-INS only
@@ -209,6 +210,10 @@ def _p(seq):
 def run_unit(unit, tier, seed, acc):
     from vlib import introspect
 
+    if unit.get("kind") == "suite":  # the repository's own tests as one more workload for this property's monitor
+        from vlib import suite
+
+        return suite.run_suite_unit(ID, acc)
     if unit["kind"] == "online":
         from vlib import histories
 
@@ -236,6 +241,10 @@ def run_unit(unit, tier, seed, acc):
 
 
 def replay(w, acc):
+    if "suite_test" in w:
+        from vlib import suite
+
+        return suite.replay_suite(w, acc, ID)
     if "profile" in w:
         from vlib import histories
 
